@@ -380,7 +380,7 @@ MF("connect", impl=r"Client<S>", props=["C03", "C05"], requires=["old(self).uid(
 MF("write", impl=r"Client<S>", props=["C11", "C12", "C03", "C04"],
    pre="proof { lemma_pdu_headers(); reveal_with_fuel(ser, 8); reveal_with_fuel(ser_seq_from, 8); }", **MCS_WRITE)
 MF("read", impl=r"Client<S>", props=["C05", "C06", "C10"],
-   body_sub=[(r"self\.channel_ids\.iter\(\)\.find\(\|x\| \*x\.1 == channel_id\)", "hashmap_find_by_value(&self.channel_ids, channel_id)")], **MCS_READ)
+   body_sub=[(r"self\.channel_ids\.iter\(\)\.find\(\|(\w+)\|\s*(?:\*\1\.1\s*==\s*channel_id|channel_id\s*==\s*\*\1\.1)\)", "hashmap_find_by_value(&self.channel_ids, channel_id)")], **MCS_READ)
 MF("shutdown", impl=r"Client<S>", props=["C03"], fuel=8, pre="proof { lemma_pdu_headers(); }",
    ensures=[("C03", "disconnect-provider-ultimatum", "r is Ok ==> final(self).written() =~= old(self).written() + frame(disconnect_ultimatum_bytes())"),
             (None, "frame", "final(self).rest() == old(self).rest() && final(self).same_session(old(self)) && is_prefix(old(self).written(), final(self).written())")])
